@@ -231,18 +231,12 @@ func ruleDroppedErrors(p *Prog, r *Result) {
 				used := false
 				if v != nil && v.Referrers() != nil {
 					if sig.Results().Len() == 1 {
-						for _, ref := range *v.Referrers() {
-							if _, dbg := ref.(*ssa.DebugRef); !dbg {
-								used = true
-							}
-						}
+						used = reachesUse(v, map[ssa.Value]bool{})
 					} else {
 						for _, ref := range *v.Referrers() {
 							if ex, ok := ref.(*ssa.Extract); ok && ex.Index == sig.Results().Len()-1 {
-								for _, r2 := range *ex.Referrers() {
-									if _, dbg := r2.(*ssa.DebugRef); !dbg {
-										used = true
-									}
+								if reachesUse(ex, map[ssa.Value]bool{}) {
+									used = true
 								}
 							}
 						}
@@ -708,4 +702,49 @@ func ruleBklMainRoot(p *Prog, r *Result) {
 		}
 	}
 	r.Check(okFlag, "C18.cli", "cmd/bkl.options / -r flag", "", "RootPath is bound to -r / --root-path", "the -r flag is no longer bound to RootPath")
+}
+
+// reachesUse: does the value (possibly through comparisons, conversions and phis) reach a branch,
+// return, store, call argument or other escaping use? A comparison whose result is unused does not count.
+func reachesUse(v ssa.Value, seen map[ssa.Value]bool) bool {
+	if seen[v] {
+		return false
+	}
+	seen[v] = true
+	refs := v.Referrers()
+	if refs == nil {
+		return false
+	}
+	for _, ref := range *refs {
+		switch x := ref.(type) {
+		case *ssa.DebugRef:
+		case *ssa.BinOp:
+			if reachesUse(x, seen) {
+				return true
+			}
+		case *ssa.UnOp:
+			if reachesUse(x, seen) {
+				return true
+			}
+		case *ssa.Phi:
+			if reachesUse(x, seen) {
+				return true
+			}
+		case *ssa.MakeInterface:
+			if reachesUse(x, seen) {
+				return true
+			}
+		case *ssa.ChangeInterface:
+			if reachesUse(x, seen) {
+				return true
+			}
+		case *ssa.Extract:
+			if reachesUse(x, seen) {
+				return true
+			}
+		default:
+			return true // If, Return, Store, call argument, MapUpdate, ...
+		}
+	}
+	return false
 }
